@@ -173,6 +173,20 @@ func runTreeHistory(t testing.TB, ops []string) string {
 			case <-time.After(3 * time.Second):
 				out = append(out, "NOSPAWN")
 			}
+		case "sd": // sd<parent>:<name>: SpawnChild of a name that is already taken: a duplicate, nothing may change
+			f := strings.SplitN(arg, ":", 2)
+			if !live[f[0]] || !live[f[0]+"."+f[1]] {
+				out = append(out, "skip")
+				continue
+			}
+			ack := make(chan string, 1)
+			e.Send(pidOf(f[0]), vTreeSpawn{f[1], ack, false})
+			select {
+			case id := <-ack:
+				out = append(out, "dup="+id)
+			case <-time.After(3 * time.Second):
+				out = append(out, "NOSPAWN")
+			}
 		case "ch":
 			if !live[arg] {
 				out = append(out, "skip")
@@ -301,6 +315,9 @@ func TestVerifTree(t *testing.T) {
 			}
 			ops = append(ops, "sc"+p+":"+nm)
 			nodes = append(nodes, child)
+			if rr.Chance(1, 6) {
+				ops = append(ops, "sd"+p+":"+nm, "ch"+p) // a duplicate SpawnChild must leave the existing child in place
+			}
 		}
 		k := 1 + rr.Intn(5)
 		for j := 0; j < k; j++ {
